@@ -157,6 +157,7 @@ def make_body(spec):
                     forced.append(r)
                 i += 1
             before = frozenset(mm._active_registers)
+            m_before = frozenset(r for r, u in mm._used_meas_registers.items() if u)
             n0 = len(conn.builder._pending_commands)
             if spec["op"] in DSL_OPS:
                 sdk.run(bind(DSL_OPS[spec["op"]], inp))
@@ -168,6 +169,15 @@ def make_body(spec):
             obs = [Ob("active_registers_unchanged", after == before, site,
                       info={"leaked": sorted(str(r) for r in after - before), "lost": sorted(str(r) for r in before - after)}),
                    Ob("live_registers_not_written", not clobbered, site, info={"clobbered": sorted(str(r) for r in clobbered)})]
+            # measurement registers: an outcome that went into an array entry does not keep its M register; only outcomes kept in
+            # registers (measure(store_array=False)) do -- otherwise 16 measurements between two flushes exhaust the pool
+            m_after = frozenset(r for r, u in mm._used_meas_registers.items() if u)
+            held = set()
+            if spec["op"] in DSL_OPS:
+                held = {str(rf.reg) for rf in sdk.regs.values() if getattr(rf, "reg", None) is not None and rf.reg.name == RegisterName.M}
+            if spec["op"] in DSL_OPS:
+                obs.append(Ob("measurement_registers_released", {str(r) for r in m_after - m_before} <= held, site,
+                              info={"still_used": sorted(str(r) for r in m_after - m_before), "held_by_register_handles": sorted(held)}))
             for r in forced:
                 mm.remove_active_register(r)
             conn.flush()
